@@ -1986,6 +1986,20 @@ fn verify_nsec(
     }
 
     match find_nsec_covering_record(&wildcard_name, nsecs) {
+        // If the next domain name of the NSEC record covering the wildcard name is below it, the
+        // wildcard is an empty non-terminal (e.g. `*.example.` if only `x.*.example.` owns records):
+        // it exists and matches the query name, but has no data (RFC 4592 section 2.2.2). The only
+        // correct response is a no data response.
+        Some((_, nsec_data)) if wildcard_name.zone_of(nsec_data.next_domain_name()) => {
+            if response_code == ResponseCode::NoError {
+                nsec1_yield(Proof::Secure, "wildcard is an empty non-terminal")
+            } else {
+                nsec1_yield(
+                    Proof::Bogus,
+                    "nxdomain response, but the wildcard exists as an empty non-terminal",
+                )
+            }
+        }
         // For NXDomain responses, we've already proved the record does not exist. Now we just need to prove
         // the wildcard name is covered.
         Some((_, _)) if response_code == ResponseCode::NXDomain => {
